@@ -339,7 +339,7 @@ func ruleQueueDiscipline(w *core.World, r *core.Report, c *senderCtx) {
 			}
 			r.Check(f == c.once && afterSuccessfulRun(st.Block(), runs), cons+"/reset", st.Pos(), "the queue is reset on a path where Exec/Dispatch did not succeed (a failed batch would be dropped instead of retried)")
 		case *ssa.Call:
-			if _, ok := c.appendedElems(v); ok && f == c.main {
+			if _, ok := c.appendedElems(v); ok && (f == c.main || c.isLoopHelper(f)) {
 				r.OK(cons+"/append", st.Pos(), "")
 			} else {
 				r.Fail(cons+"/append", st.Pos(), "the queue is assigned something other than append(queue, item...) in the sender loop")
@@ -520,6 +520,41 @@ func ruleNothingInventedSender(w *core.World, r *core.Report, c *senderCtx) {
 
 // sentValues lists the values sent on channel parameter p in f.
 func sentValues(f *ssa.Function, p *ssa.Parameter) (vals []ssa.Value, at []ssa.Instruction) {
+	// sends made by a local closure on behalf of f (a "send or give up" helper): the value is the
+	// closure's parameter, so what is really sent is the argument at each of its call sites
+	for _, g := range core.DeepFuncs(f)[1:] {
+		gv, _ := sentValuesIn(g, p)
+		for _, v := range gv {
+			v = core.Unwrap(v)
+			if u, isLd := v.(*ssa.UnOp); isLd && u.Op == token.MUL {
+				if cell := core.Cell(u.X); cell != nil {
+					if sts := core.CellStores(cell); len(sts) == 1 {
+						v = core.Unwrap(sts[0].Val)
+					}
+				}
+			}
+			k := -1
+			for i, par := range g.Params {
+				if ssa.Value(par) == v {
+					k = i
+				}
+			}
+			if k < 0 {
+				continue
+			}
+			for _, s := range core.Sites(f, false) {
+				if s.Callee == g && k < len(s.Common().Args) {
+					vals = append(vals, s.Common().Args[k])
+					at = append(at, s.Instr)
+				}
+			}
+		}
+	}
+	v2, a2 := sentValuesIn(f, p)
+	return append(vals, v2...), append(at, a2...)
+}
+
+func sentValuesIn(f *ssa.Function, p *ssa.Parameter) (vals []ssa.Value, at []ssa.Instruction) {
 	for _, in := range core.Instrs(f) {
 		switch x := in.(type) {
 		case *ssa.Send:
@@ -848,7 +883,14 @@ func ruleDbMapping(w *core.World, r *core.Report) {
 		}
 	}
 	for name, pos := range readers {
-		r.Check(name == "(*syncer.RedisOutput).selectDB", "TargetDb-reader/"+name, pos, "the database mapping is consulted outside selectDB: replay paths would disagree on the target database")
+		ok := name == "(*syncer.RedisOutput).selectDB"
+		if !ok {
+			// a helper of selectDB: called from selectDB and from nowhere else
+			if g := w.Func(name); g != nil {
+				ok = calledOnlyFrom(w, g, "(*syncer.RedisOutput).selectDB")
+			}
+		}
+		r.Check(ok, "TargetDb-reader/"+name, pos, "the database mapping is consulted outside selectDB: replay paths would disagree on the target database")
 	}
 	if len(readers) == 0 {
 		r.Fail("TargetDb-reader", token.NoPos, "no reader of the database mapping found")
@@ -974,8 +1016,18 @@ func ruleSelectDBBody(w *core.World, r *core.Report) {
 		return
 	}
 	cur, org := f.Params[1], f.Params[2]
-	isCur := func(v ssa.Value) bool { return core.Unwrap(v) == ssa.Value(cur) }
-	isOrg := func(v ssa.Value) bool { return core.Unwrap(v) == ssa.Value(org) }
+	// values inside a helper that selectDB calls are expressed in the helper's own parameters: the
+	// path that stepped into it knows what they stand for
+	var cp *core.Path
+	via := func(v ssa.Value) ssa.Value {
+		v = core.Unwrap(v)
+		if cp != nil {
+			v = core.Unwrap(cp.Resolve(v))
+		}
+		return v
+	}
+	isCur := func(v ssa.Value) bool { return via(v) == ssa.Value(cur) }
+	isOrg := func(v ssa.Value) bool { return via(v) == ssa.Value(org) }
 	isTargetDb := func(v ssa.Value) bool { return core.IsFieldLoad(core.Unwrap(v), "", "TargetDb") }
 	isMapOK := func(v ssa.Value) bool {
 		e, ok := core.Unwrap(v).(*ssa.Extract)
@@ -1004,6 +1056,7 @@ func ruleSelectDBBody(w *core.World, r *core.Report) {
 		if bad != "" {
 			return
 		}
+		cp = p
 		fail := func(m string) { bad, badPos = m, ret.Pos() }
 		r0, r1 := p.Resolve(ret.Results[0]), p.Resolve(ret.Results[1])
 		if b, isC := core.ConstBool(r1); isC {
